@@ -3,7 +3,8 @@
 cd "$(dirname "$0")/.."
 tier=${1:-quick}; shift
 rc_all=0
-for p in C01 C02 C03 C04 C05 C06 C07 C08 C09 C10 C11 C12 C13 C14 C15 C16 C17 C18 C19 C20; do
+# CHECKS="C02 C09" restricts the run to those checks
+for p in ${CHECKS:-C01 C02 C03 C04 C05 C06 C07 C08 C09 C10 C11 C12 C13 C14 C15 C16 C17 C18 C19 C20}; do
   s=$(date +%s)
   out=$(./check $p --tier $tier "$@" 2>&1); rc=$?
   e=$(date +%s)
